@@ -6,6 +6,49 @@ import errno
 from .faults import make_exc
 
 
+# ---- `os` as seen by the s3transfer modules ------------------------------------
+# remove / rename / replace go to the file system of the running simulation, so
+# that the library's OWN code around them (OSUtils.remove_file swallowing
+# errors, compat.rename_file) is executed rather than replaced by the harness.
+import os as _real_os
+import types as _types
+
+_ACTIVE = [None]
+
+
+class _SimOSModule(_types.ModuleType):
+    def __getattr__(self, k):
+        return getattr(_real_os, k)
+
+
+def _active_fs():
+    from . import kernel
+    if kernel._CURRENT is None:
+        return None
+    return _ACTIVE[0]
+
+
+def _os_remove(path, *a, **k):
+    fs = _active_fs()
+    if fs is None:
+        return _real_os.remove(path, *a, **k)
+    return fs.remove(path)
+
+
+def _os_rename(src, dst, *a, **k):
+    fs = _active_fs()
+    if fs is None:
+        return _real_os.rename(src, dst, *a, **k)
+    return fs.rename(src, dst)
+
+
+sim_os = _SimOSModule('os')
+sim_os.remove = _os_remove
+sim_os.unlink = _os_remove
+sim_os.rename = _os_rename
+sim_os.replace = _os_rename
+
+
 class SimFile:
     def __init__(self, fs, path, mode, node):
         self.fs = fs
@@ -180,6 +223,7 @@ class SimFS:
         self.faults = world.faults
         self.files = {}        # path -> bytearray
         self.special = {}      # path -> list of writes (FIFO sink)
+        _ACTIVE[0] = self
         self.log = []          # (stamp, op, path, extra, tid)
         self.entered = {}      # (op, destination) -> True once a thread is inside it
         self.reads = []
@@ -296,14 +340,8 @@ def make_osutils(fs):
         def open(self, filename, mode):
             return fs.open(filename, mode)
 
-        def remove_file(self, filename):
-            try:
-                fs.remove(filename)
-            except OSError:
-                pass
-
-        def rename_file(self, current_filename, new_filename):
-            fs.rename(current_filename, new_filename)
+        # remove_file / rename_file are the library's own: they reach this file
+        # system through the `os` the package was imported with (sim_os above)
 
         def is_special_file(self, filename):
             return filename in fs.special
